@@ -744,17 +744,17 @@ def population(tier, seed):
     N6 = 3 if quick else 4      # alphabets with 6 classes
     cases = fixed_cases(N5)
     lex_names = ["ascii", "uni", "ascii", "exact", "uni", "named", "meta1", "exactuni", "uni2"]
-    n_lex = 44 if quick else 130
+    n_lex = 44 if quick else 300
     for i in range(n_lex):
         aname = lex_names[i % len(lex_names)]
         K = len(ALPHABETS[aname][0])
-        c = gen.definition(aname, N6 if K >= 6 else N5)
+        c = gen.definition(aname, N6 if K >= 6 else N5 if (K >= 5 or quick) else N5 + 1)
         c["tags"].append("lexdef")
         cases.append(c)
-    cases += table_cases(gen, 14 if quick else 42, N6, N5)
+    cases += table_cases(gen, 14 if quick else 98, N6, N5)
     cases += fixed_overlap(N5)
-    cases += overlap_sets(gen, 60 if quick else 400, N5)
-    cases += unsupported_sets(gen, N5, 18 if quick else 54)
+    cases += overlap_sets(gen, 60 if quick else 1200, N5)
+    cases += unsupported_sets(gen, N5, 18 if quick else 90)
     ids = set()
     for c in cases:
         assert c["id"] not in ids
@@ -906,7 +906,7 @@ def classify_lalrpop(r):
     return "other_error"
 
 
-_STRS = re.compile(r"let __strs: &\[\(&str, bool\)\] = &\[(.*?)\];", re.S)
+_STRS = re.compile(r"let __+strs: &\[\(&str, bool\)\] = &\[(.*?)\];", re.S)
 
 
 def rust_unescape(s):
